@@ -61,7 +61,10 @@ def build2d(cfg):
     one = np.ones(cfg['nx'] * cfg['ny'])
     with np.errstate(all='ignore'):
         d0.rhs(impl.field.fdata(mod, comp, mod.prim2cons([1.0 + 0.1 * np.arange(one.size) / one.size, np.vstack([0.1 * one, -0.2 * one]), one])))
-    disc = impl.modeldisc.fvm2dcart(mod, msh, num, {k: dict(v) for k, v in cfg['bc'].items()}, numflux=cfg['flux'])
+    # sides with the same boundary condition are given ONE dictionary object (bcsym = {'type': 'sym'}; {tag: bcsym for tag in ...})
+    shared = {}
+    bcs = {k: shared.setdefault(repr(sorted(v.items())), dict(v)) for k, v in cfg['bc'].items()}
+    disc = impl.modeldisc.fvm2dcart(mod, msh, num, bcs, numflux=cfg['flux'])
     W = [np.array(cfg['prim'][0]), np.vstack([cfg['prim'][1], cfg['prim'][2]]), np.array(cfg['prim'][3])]
     Q = mod.prim2cons(W)
     f = impl.field.fdata(mod, msh, [np.array(x, dtype=float) for x in Q])
